@@ -250,6 +250,7 @@ pub async fn run_one(fx: &Fx, spec: &Spec) -> Res {
         (got, end)
     });
     let target = Dest { host: Host::V4([127, 0, 1, 1 + spec.route % 3]), port: oport };
+    let mut quic_conn: Option<quinn::Connection> = None;
     let (est, refusal, cgot, cend) = if spec.listener % 2 == 0 {
         let tcp = match TcpStream::connect(lo(fx.https)).await {
             Ok(t) => t,
@@ -279,7 +280,9 @@ pub async fn run_one(fx: &Fx, spec: &Spec) -> Res {
             Ok(Ok(conn)) => match conn.open_bi().await {
                 Ok((w, r)) => {
                     let out = client_leg(r, w, spec, &target, &c2s, budget).await;
-                    conn.close(0u32.into(), b"");
+                    // the connection is closed only after the origin has seen the end: closing it earlier would
+                    // discard stream data the proxy has acknowledged but not yet read (a harness-made truncation)
+                    quic_conn = Some(conn);
                     out
                 }
                 Err(e) => (false, Some(format!("open_bi: {}", e)), vec![], "none"),
@@ -296,6 +299,9 @@ pub async fn run_one(fx: &Fx, spec: &Spec) -> Res {
         res.origin_len = ogot.len();
         res.origin_first_diff = first_diff(&ogot, &c2s);
         res.origin_end = oend.into();
+    }
+    if let Some(conn) = quic_conn {
+        conn.close(0u32.into(), b"");
     }
     res
 }
